@@ -87,3 +87,282 @@ def workers_panic_free(crate, root):
         if not ok:
             return False, why
     return True, "%d workers" % len(ws)
+
+
+# ---------------------------------------------------------------------------
+# CONC-JOIN / CONC-WRITES / TILE / GATHER rule
+
+from .schema import Obl, elem_access, store_elem, region_of_container, sum_parts, _mentions, const_is   # noqa: E402
+from .origin import payload_of   # noqa: E402
+
+ITER_NEXT = "core::iter::traits::iterator::Iterator::next"
+SCOPE_KEY = "std::thread::scoped::scope"
+
+
+def ap_families(crate):
+    out = set()
+    for p in crate.fn_paths():
+        an = crate.an(p)
+        for ev in an.events:
+            if ev["k"] == "call" and ev["key"] == AP_KEY:
+                out.add(crate.prog.fns[p].get("root", p))
+    return sorted(out)
+
+
+def div_ceil_of(t):
+    if t[0] == "call" and t[1] == "usize::div_ceil" and len(t[3]) == 2:
+        return t[3][0], t[3][1]
+    return None
+
+
+def thread_count_ok(t):
+    """t is available_parallelism().map_or(1, NonZero::get) or its min with something"""
+    if t[0] == "min":
+        return thread_count_ok(t[1]) or thread_count_ok(t[2])
+    if t[0] == "call" and t[1] == "core::result::Result::map_or" and len(t[3]) == 3:
+        return t[3][0][0] == "site" and t[3][0][2] == AP_KEY and t[3][1] == ("const", "usize", 1)
+    return False
+
+
+def rule_conc(filter_names=None):
+    def f(crate, prop, tier):
+        from .mem import complete_scan
+        from .closures import capture_map
+        o = Obl("CONC")
+        prog = crate.prog
+        fams = ap_families(crate)
+        for root in fams:
+            rf = prog.fns[root]
+            if filter_names is not None and rf.get("name") not in filter_names:
+                continue
+            o.instances += 1
+            who = prog.pretty[root]
+            ws = worker_closures(crate, root)
+            if not o.check(len(ws) >= 1 and all(c is not None for (_, _, _, c) in ws), who, "workers",
+                           "no worker closure literal is spawned"):
+                continue
+            # thread count >= 1
+            tc = False
+            for p in family(crate, root):
+                an = crate.an(p)
+                for ev in an.events:
+                    if ev["k"] == "call" and ev["key"] == "core::result::Result::map_or" and thread_count_ok(ev["res"]):
+                        tc = True
+            o.check(tc, who, "thread-count-at-least-1", "the thread count is not available_parallelism().map_or(1, NonZero::get)")
+            for (sp, sb, skey, wc) in ws:
+                span = crate.an(sp).blocks[sb]["tspan"]
+                san = crate.an(sp)
+                sfx = crate.fx(sp)
+                # --- JOIN
+                if skey.endswith("Scope::spawn"):
+                    # scoped: the spawning body must itself be the closure handed to thread::scope
+                    pan = crate.an(prog.fns[sp].get("parent", sp)) if prog.fns[sp]["kind"] == "Closure" else None
+                    scoped = False
+                    if pan is not None:
+                        for ev in pan.events:
+                            if ev["k"] == "call" and ev["key"] == SCOPE_KEY and any(a[0] == "agg" and a[1] == "closure" and a[2] == sp for a in ev["args"]):
+                                scoped = True
+                    o.check(scoped, who, "join-scoped", "a scoped spawn outside thread::scope", span)
+                else:
+                    # every handle is pushed into a Vec that is completely drained by a join loop before any return
+                    spawn_ev = [ev for ev in san.events if ev["k"] == "call" and ev["b"] == sb][0]
+                    pushed = None
+                    for ev in san.events:
+                        if ev["k"] == "call" and ev["key"] == "alloc::vec::Vec::push" and len(ev["args"]) == 2 and ev["args"][1] == spawn_ev["res"]:
+                            pushed = ev
+                    if not o.check(pushed is not None, who, "join-handle-kept", "a JoinHandle is dropped (detached thread)", span):
+                        continue
+                    hreg = pushed["args"][0][1] if pushed["args"][0][0] == "addr" else None
+                    joined = None
+                    for ev in san.events:
+                        if ev["k"] == "call" and ev["key"] == ITER_NEXT:
+                            d = sfx.iter_desc(ev)
+                            if d and d != "CYCLE" and d[0] == "mem" and d[1] == hreg:
+                                item = ("field", ("dc", ev["res"], "Some"), "0")
+                                body = san.cfg.loops.get(san.cfg.loop_of(ev["b"]), set())
+                                for e2 in san.events:
+                                    if e2["k"] == "call" and e2["key"] in JOIN_KEYS and e2["b"] in body and e2["args"][0] == item:
+                                        joined = ev
+                    if o.check(joined is not None, who, "join-loop", "no loop joins every spawned handle", span):
+                        o.check(complete_scan(san, sfx, joined), who, "join-all", "the join loop can end before every worker is joined", joined["span"])
+                        # no path from the spawn to a return that avoids the join loop's exhaustion edge
+                        exit_edges = set()
+                        for x in san.cfg.rpo:
+                            e3 = sfx.ev_term.get(x)
+                            if e3 is not None and e3["k"] == "switch" and e3["discr"][0] == "discr" and e3["discr"][1] == joined["res"]:
+                                for tg, lab in san.cfg.succ[x]:
+                                    if ("variant", joined["res"], "None") in sfx.edge_atoms(x, lab, tg):
+                                        exit_edges.add((x, tg))
+                        seen = set()
+                        work = [sb]
+                        while work:
+                            x = work.pop()
+                            if x in seen:
+                                continue
+                            seen.add(x)
+                            for tg, lab in san.cfg.succ[x]:
+                                if (x, tg) not in exit_edges:
+                                    work.append(tg)
+                        bad = [rb for rb in san.cfg.returns if rb in seen]
+                        o.check(not bad and bool(exit_edges), who, "join-before-return",
+                                "a normal return is reachable from the spawn without the join loop having joined every worker", span)
+                # --- WRITES inside the worker (and closures nested in it)
+                for wp in [wc] + [c for c in crate.fn_paths() if prog.fns[c].get("parent") == wc]:
+                    wan = crate.an(wp)
+                    wfx = crate.fx(wp)
+                    cm = capture_map(crate, wan)
+                    for ev in wan.events:
+                        if ev["k"] == "store":
+                            reg = ev["region"]
+                            if reg.startswith("L") and not _escapes_from_capture(wan, reg):
+                                continue
+                            o.check(_disjoint_store(crate, wan, wfx, ev), prog.pretty[wp], "worker-store",
+                                    "a worker writes shared memory at a location that is not its own partition slot", ev["span"])
+                        elif ev["k"] == "call" and ev["key"]:
+                            k = ev["key"]
+                            if k == "core::sync::atomic::Atomic::store":
+                                o.check(const_is(ev["args"][1], 0), prog.pretty[wp], "flag-monotone",
+                                        "a worker stores a value other than `false` into the shared flag (not monotone)", ev["span"])
+                            elif k == "core::ptr::write":
+                                c_, idx, kind = _root_of_ptr(crate, wan, ev["args"][0])
+                                ok = idx is not None and _is_partition_var(wan, wfx, idx)
+                                o.check(ok, prog.pretty[wp], "worker-ptr-write",
+                                        "a worker writes through a shared raw pointer at an index that is not its loop variable over its own range", ev["span"])
+            # --- TILE
+            tiles = tile_templates(crate, root)
+            tt = trusted_tiles().get(who)
+            if tt is not None:
+                o.check(True, who, "tile-trusted", "")
+                continue
+            o.check(len(tiles) >= 1, who, "tile-template", "the partition of the rows over the workers matches no proven template "
+                    "(start = k*c, end = min(n, start+c), c = div_ceil(n, t); or step_by(c) / chunks(c))")
+            for (tag, ok, sp_, msg) in tiles:
+                o.check(ok, who, "tile:" + tag, msg, sp_)
+        fl = 8 if filter_names is None else 1
+        return o.report(floors={"parallel operations (available_parallelism callers)": (o.instances, fl)})
+    return f
+
+
+def _after_loop(an, hb, rb):
+    return True
+
+
+def _escapes_from_capture(an, reg):
+    return False
+
+
+def _root_of_ptr(crate, an, P):
+    from .mem import ptr_root
+    C, idx, kind = ptr_root(P)
+    return C, idx, kind
+
+
+def _is_partition_var(an, fx, idx):
+    """idx is the item of a `for u in start..end` loop whose bounds are captured scalars"""
+    site, path = payload_of(idx)
+    if site is None or path != ():
+        return False
+    ev = fx.an_call_at(site[1])
+    if ev is None or ev["key"] != ITER_NEXT:
+        return False
+    d = fx.iter_desc(ev)
+    return bool(d) and d != "CYCLE" and d[0] == "agg" and d[2][0].endswith("ops::range::Range")
+
+
+def _disjoint_store(crate, an, fx, ev):
+    c, idx = store_elem(ev)
+    reg = ev["region"]
+    ri = an.region_info.get(reg.split("#buf")[0])
+    # stores through a captured `&mut` are exclusive by construction
+    base = reg.split("#buf")[0]
+    for r, info in an.region_info.items():
+        if base.startswith(r) and info["ty"].get("k") == "ref" and info["ty"].get("mut"):
+            return True
+    bi = an.region_info.get(base)
+    if bi is not None:
+        # region reached through `&mut`-typed capture field
+        pass
+    if idx is not None and _is_partition_var(an, fx, idx):
+        return True
+    # element of a captured &mut container (degree_sequence: local_indegrees)
+    for k, cp in enumerate(an.f.get("captures", [])):
+        if cp["ty"].get("k") == "ref" and cp["ty"].get("mut") and ("A1.%d" % k in reg or "L1.%d" % k in reg):
+            return True
+    return False
+
+
+def tile_templates(crate, root):
+    """[(tag, ok, span, message)] partition-shape obligations found in the family of root"""
+    out = []
+    prog = crate.prog
+    for p in family(crate, root):
+        an = crate.an(p)
+        fx = crate.fx(p)
+        for ev in an.events:
+            if ev["k"] != "call":
+                continue
+            # template 1/2: end = min(n, start + c)
+            if ev["key"] in ("core::cmp::Ord::min", "usize::min") and ev["res"][0] == "min":
+                a, b = ev["res"][1], ev["res"][2]
+                for s_, n in ((a, b), (b, a)):
+                    xy = sum_parts(s_)
+                    if not xy:
+                        continue
+                    for start, c in (xy, xy[::-1]):
+                        dc = _chunk_def(crate, an, c)
+                        if dc is None:
+                            continue
+                        nn, t = dc
+                        okc = nn == n or _same_value(crate, an, nn, n)
+                        out.append(("chunk-is-div-ceil", okc, ev["span"], "chunk size is not div_ceil(n, t) for the same n that bounds `end`"))
+                        # start: k * c (k loop var) or item of step_by(0..n, c)
+                        st_ok = False
+                        if start[0] == "bin" and start[1] == "Mul" and c in (start[2], start[3]):
+                            st_ok = True
+                        site, path = payload_of(start)
+                        if site is not None:
+                            e2 = fx.an_call_at(site[1])
+                            d = fx.iter_desc(e2) if e2 else None
+                            if d and d != "CYCLE" and d[0] == "call" and d[1].endswith("Iterator::step_by") and d[3][1] == c \
+                                    and d[3][0][0] == "agg" and d[3][0][3][0] == ("const", "usize", 0) and \
+                                    (d[3][0][3][1] == n or _same_value(crate, an, d[3][0][3][1], n)):
+                                st_ok = True
+                        out.append(("start", st_ok, ev["span"], "range start is neither k * chunk nor an item of (0..n).step_by(chunk)"))
+            # template 3: rows.chunks(c)
+            if ev["key"] == "slice::chunks" and len(ev["args"]) == 2:
+                dc = _chunk_def(crate, an, ev["args"][1])
+                out.append(("chunks-div-ceil", dc is not None, ev["span"], "chunks() size is not div_ceil(n, t)"))
+    return out
+
+
+def _chunk_def(crate, an, c):
+    """(n, t) when c is div_ceil(n, t), looking through captured values"""
+    from .closures import capture_map
+    d = div_ceil_of(c)
+    if d:
+        return d
+    cm = capture_map(crate, an)
+    if cm is not None:
+        for pv, cv in cm.valmap:
+            if cv == c:
+                r = _chunk_def(crate, cm.pan, pv)
+                if r:
+                    n, t = r
+                    for x in cm.tr_all(n):
+                        return x, t
+    if c[0] == "pval":
+        return None
+    return None
+
+
+def _same_value(crate, an, a, b):
+    fx = crate.fx(an.path)
+    return a == b or fx.holds(0, lambda rel: rel.eq(a, b))
+
+
+def trusted_tiles():
+    import json
+    try:
+        return {e["fn"]: e for e in json.load(open("/verif/tables/trusted_tiles.json"))}
+    except FileNotFoundError:
+        return {}
